@@ -134,6 +134,7 @@ def make_plan(prop, seed):
         rs["buggify"] = r.random() < 0.5
     elif prop == "C09":
         mix = r.choice(["adv2", "adv3", "both2", "both2", "both"])
+        rs["enum_faults"] = r.random() < 0.5
     elif prop == "C10":
         mix = r.choice(["adv", "both", "both", "builtin"])
         adv["p_hostile"] = r.choice([0.3, 0.6])
@@ -169,7 +170,7 @@ def make_plan(prop, seed):
     elif prop == "C20":
         mix = "builtin"
     elif prop == "C15":
-        mix = r.choice(["default", "builtin", "both"])
+        mix = r.choice(["default", "builtin", "builtin", "both", "both"])
         rs["lazy"] = r.random() < 0.5
     elif prop == "C01":
         mix = r.choice(["builtin", "builtin", "both"])
@@ -191,6 +192,10 @@ def make_plan(prop, seed):
         rs["generators"] = []
     elif mix == "default":
         rs["generators"] = None
+    if prop == "C15" and rs["generators"] is not None and r.random() < 0.6:
+        # a stateful generator in HIVE's own functional style (state carried in the returned generator)
+        rs["generators"] = rs["generators"] + ["ticker"]
+        rs["ticker_period"] = r.choice([1, 2, 3])
     rs["adv"] = adv
     return {"version": 1, "property": prop, "seed": seed, "spec": spec, "run": rs, "ops": {}, "nsteps": spec["nsteps"]}
 
